@@ -32,6 +32,7 @@ package defaults
 //@   property C19
 //@   option summary callers use this contract, not the body
 //@   option trusted body not verified (one loop over the runes of s classifying each with the unicode package)
+//@   option bounded defaults_tally every 1-rune string over U+0000..U+024F and 34 further runes / invalid bytes, every 2-byte ASCII string, each rune around a fixed password
 //@   ensures counts: result.0 == count_upper(s) && result.1 == count_lower(s) && result.2 == count_numeric(s) &&
 //@       result.3 == count_symbols(s) && result.4 == count_whitespace(s) &&
 //@       result.0 >= 0 && result.1 >= 0 && result.2 >= 0 && result.3 >= 0 && result.4 >= 0
